@@ -96,6 +96,18 @@ def run_shard(ctx):
         nwide += 1
         run_case(ctx, gg.to_nx(gd), gd, q, via=rng.choice(("outcomes", "identify", "single", "from_parts", "raw-graph")))
     ctx.extras["wide_graphs"] = nwide
+    # very large sparse graphs (64..160 nodes): still only a verdict to compare
+    nhuge = 0
+    for _ in range(ctx.share({"quick": 48, "thorough": 1000}[ctx.tier])):
+        gd = gg.huge_sparse(rng, density=(0.6, 1.4))
+        g = gg.to_nx(gd)
+        for _q in range(3):
+            q = gq.random_query(rng, gd, max_size=2)
+            if q is None:
+                continue
+            nhuge += 1
+            run_case(ctx, g, gd, q, via=rng.choice(("outcomes", "identify")), gkey=gg.key(gd)[:200] + f"|huge{len(gd['di'])}")
+    ctx.extras["huge_sparse_cases"] = nhuge
     # histories on one shared graph object
     for _ in range(ctx.share({"quick": 48, "thorough": 1200}[ctx.tier])):
         gd = gg.random_admg(rng, rng.randint(4, 7))
